@@ -559,6 +559,19 @@ impl TOutputProtocol for TBinaryProtocol<&mut LinkedBytes> {
     }
 }
 
+/// `Bytes::split_to` panics when fewer than `len` bytes remain; a length prefix taken from the
+/// wire must produce an error instead.
+#[inline]
+fn split_to_checked(trans: &mut Bytes, len: usize) -> Result<Bytes, ThriftException> {
+    if trans.len() < len {
+        return Err(new_protocol_exception(
+            ProtocolExceptionKind::InvalidData,
+            format!("no remaining: need {} bytes, {} left", len, trans.len()),
+        ));
+    }
+    Ok(trans.split_to(len))
+}
+
 impl TInputProtocol for TBinaryProtocol<&mut Bytes> {
     type Buf = Bytes;
 
@@ -645,7 +658,7 @@ impl TInputProtocol for TBinaryProtocol<&mut Bytes> {
     fn read_bytes(&mut self) -> Result<Bytes, ThriftException> {
         let len = self.trans.read_i32()?;
         // split and freeze it
-        Ok(self.trans.split_to(len as usize))
+        split_to_checked(self.trans, len as usize)
     }
 
     #[inline]
@@ -655,7 +668,7 @@ impl TInputProtocol for TBinaryProtocol<&mut Bytes> {
                 std::slice::from_raw_parts(ptr, len)
             }))
         } else {
-            Ok(self.trans.split_to(len))
+            split_to_checked(self.trans, len)
         }
     }
 
@@ -700,7 +713,7 @@ impl TInputProtocol for TBinaryProtocol<&mut Bytes> {
     #[inline]
     fn read_faststr(&mut self) -> Result<FastStr, ThriftException> {
         let len = self.trans.read_i32()? as usize;
-        let bytes = self.trans.split_to(len);
+        let bytes = split_to_checked(self.trans, len)?;
         unsafe { Ok(FastStr::from_bytes_unchecked(bytes)) }
     }
 
@@ -749,7 +762,7 @@ impl TInputProtocol for TBinaryProtocol<&mut Bytes> {
     #[inline]
     fn read_bytes_vec(&mut self) -> Result<Vec<u8>, ThriftException> {
         let len = self.trans.read_i32()? as usize;
-        Ok(self.trans.split_to(len).into())
+        Ok(split_to_checked(self.trans, len)?.into())
     }
 
     #[inline]
